@@ -3,7 +3,7 @@
 From Coq Require Extraction.
 From Coq Require Import ExtrOcamlBasic.
 From RainVerif Require Import Params.
-From RainVerif.model Require Import Bytes Crc Log LogScript Bloom FilterBlock Key Block Table TableSpec Version Lsm LsmSpec DbSpec LockOwner Cursor Conc.
+From RainVerif.model Require Import Bytes Crc Log LogScript Bloom FilterBlock Key Block Table TableSpec Version Lsm LsmSpec DbSpec LockOwner Cursor Conc Codec.
 
 Extraction Language OCaml.
 
@@ -20,4 +20,5 @@ Extraction "../ocaml/model.ml"
   spec_run spec_init contents user_keys lsm_wf_b
   LockOwner.step world_init
   d_run d_new iter_children m_run m_new cursor_run
-  cstep spawn c_init pc_of spec_get.
+  cstep spawn c_init pc_of spec_get
+  batch_encode batch_decode vchange_encode vchange_decode vc_empty.
